@@ -92,6 +92,11 @@ impl AssemblyWindow {
     }
 
     #[cfg(feature = "verif")]
+    pub fn verif_max_alloc(&self) -> usize {
+        self.max_alloc
+    }
+
+    #[cfg(feature = "verif")]
     pub fn verif_dud_count(&self) -> u64 {
         self.verif_dud_count
     }
